@@ -2,3 +2,5 @@ import Grol.Wire
 import Grol.Suite
 import Grol.Trie
 import Grol.TrieSuite
+import Grol.Sanitize
+import Grol.SanitizeSuite
